@@ -530,6 +530,29 @@ theorem Inv_ringStep {now : Nat} {fs : Files} {r : RingSt} (h : Inv now r) (op :
               show (exec fs x.apply).2.1 = ECANCELED
               rw [this]; rfl
 
+/-! ### predicates on the pool carried through `submit` -/
+
+/-- A predicate on scheduled entries survives a whole `submit` if it holds for every freshly scheduled entry
+    (whose id is one of the SQ's) and is inherited by the `-ECANCELED` replacement of an entry that had it. -/
+theorem submitLoop_pool_pred (now : Nat) (P : Sched → Prop) :
+    ∀ (es : List (Nat × Sqe)) (lats : List Nat) (r : RingSt),
+      (∀ x ∈ pool r, P x) →
+      (∀ y : Sched, y.sid ∈ es.map (·.1) → y.canc = false → P y) →
+      (∀ x : Sched, P x → P ⟨now, x.ud, .imm ECANCELED, x.sid, now, 0, true⟩) →
+      ∀ y ∈ pool (submitLoop now es lats r), P y
+  | [], _, r, h0, _, _ => by simpa [submitLoop] using h0
+  | (sid, e) :: es, lats, r, h0, hnew, hrep => by
+    simp only [submitLoop]
+    apply submitLoop_pool_pred now P es lats.tail (submitOne r now sid e (lats.headD 0))
+    · intro y hy
+      rcases (submitOne_pool r now sid e (lats.headD 0)).2 y hy with h1 | ⟨h1, _, _, _, h5, _⟩ | ⟨x, hx, rfl⟩
+      · exact h0 y h1
+      · exact hnew y (by rw [h1]; simp) h5
+      · exact hrep x (h0 x hx)
+    · intro y hy hc
+      exact hnew y (by simp only [List.map_cons, List.mem_cons]; exact Or.inr hy) hc
+    · exact hrep
+
 /-! ### the successful `next`, named -/
 
 def doneOf (x : Sched) (res : Int) (now : Nat) : Done := ⟨x.sid, x.ud, res, now, x.at_, x.lat, x.canc, x.apply⟩
